@@ -35,8 +35,10 @@ enum GOpt {
     Outlives,
     /// a const parameter declared BEFORE the type parameter: `<const N: usize, T>`
     ConstFirst,
+    /// shared references to UNSIZED types that mention the parameter: `<'a, T>` with fields `&'a [T]`
+    RefUnsized,
 }
-const GOPTS: [GOpt; 14] = [GOpt::None, GOpt::T, GOpt::LifetimeT, GOpt::ConstN, GOpt::DefaultT, GOpt::WhereT, GOpt::UnsizedTail, GOpt::Float, GOpt::Assoc, GOpt::ConstLikeType, GOpt::TwoLifetimes, GOpt::ParamH, GOpt::Outlives, GOpt::ConstFirst];
+const GOPTS: [GOpt; 15] = [GOpt::None, GOpt::T, GOpt::LifetimeT, GOpt::ConstN, GOpt::DefaultT, GOpt::WhereT, GOpt::UnsizedTail, GOpt::Float, GOpt::Assoc, GOpt::ConstLikeType, GOpt::TwoLifetimes, GOpt::ParamH, GOpt::Outlives, GOpt::ConstFirst, GOpt::RefUnsized];
 
 #[derive(Clone, Copy, PartialEq, Eq, Debug)]
 enum Naming {
@@ -100,7 +102,7 @@ fn applicable(c: &Case) -> Vec<&'static str> {
     match c.gopt {
         GOpt::UnsizedTail => v.retain(|t| !matches!(*t, "Copy" | "Clone" | "Default")),
         GOpt::Float => v.retain(|t| !matches!(*t, "Eq" | "Ord" | "Hash")),
-        GOpt::LifetimeT | GOpt::ConstN | GOpt::ConstLikeType | GOpt::TwoLifetimes | GOpt::Outlives | GOpt::ConstFirst => v.retain(|t| *t != "Default"),
+        GOpt::LifetimeT | GOpt::ConstN | GOpt::ConstLikeType | GOpt::TwoLifetimes | GOpt::Outlives | GOpt::ConstFirst | GOpt::RefUnsized => v.retain(|t| *t != "Default"),
         _ => {}
     }
     v
@@ -149,6 +151,10 @@ fn field_ty(c: &Case, vi: usize, fi: usize) -> (&'static str, Vec<&'static str>)
             0 => ("&'a T", vec!["&0u8", "&1u8"]),
             _ => ("&'b T", vec!["&0u8", "&1u8"]),
         },
+        GOpt::RefUnsized => match (vi + fi) % 2 {
+            0 => ("&'a [T]", vec!["&[0u8, 1][..]", "&[1u8][..]"]),
+            _ => ("u8", vec!["0u8", "1u8"]),
+        },
         GOpt::ConstFirst => match (vi + fi) % 2 {
             0 => ("[T; N]", vec!["[0u8, 1]", "[1u8, 0]"]),
             _ => ("T", vec!["0u8", "1u8"]),
@@ -181,6 +187,7 @@ fn generics_of(g: GOpt) -> (&'static str, &'static str, &'static str) {
         GOpt::ParamH => ("<H>", "", "<u8>"),
         GOpt::Outlives => ("<'a, 'b: 'a, T: 'b>", "", "<'static, 'static, u8>"),
         GOpt::ConstFirst => ("<const N: usize, T>", "", "<2, u8>"),
+        GOpt::RefUnsized => ("<'a, T>", "", "<'static, u8>"),
     }
 }
 
@@ -204,6 +211,7 @@ fn uses_all_params(c: &Case) -> bool {
         GOpt::ParamH => tys.iter().any(|t| t.contains('H')),
         GOpt::Outlives => tys.contains(&"&'b T") && tys.contains(&"&'a u8"),
         GOpt::ConstFirst => tys.contains(&"[T; N]"),
+        GOpt::RefUnsized => tys.contains(&"&'a [T]"),
     }
 }
 
